@@ -6,6 +6,7 @@ import Driver.PathMap
 import Driver.Robotics
 import Driver.Reader
 import Driver.IoFault
+import Driver.Snippet
 /-!
 `modeldrv`: one request per line on stdin (`<area> <op> <args…>`), one answer per line on stdout.
 -/
@@ -21,6 +22,7 @@ def dispatch (line : String) : String :=
   | "robotics" :: rest => Robotics.handle rest
   | "reader" :: rest => Reader.handle rest
   | "iofault" :: rest => IoFault.handle rest
+  | "snippet" :: rest => Snippet.handle rest
   | _ => "bad-op"
 
 partial def loop (h : IO.FS.Stream) (out : IO.FS.Stream) : IO Unit := do
